@@ -118,6 +118,17 @@ theorem rchain_fields {s s' : State} (ho : s'.octets = s.octets) (hc : s'.cursor
     RChain s' rs p e :=
   rchain_move (lo := 0) (fun a k _ _ it => item_fields it ho hc hg) (fun i _ _ => by rw [ho]) (Nat.zero_le _) h
 
+theorem rchain_mem {s : State} : ∀ {rs : List RIt} {p e : Nat}, RChain s rs p e → ∀ x ∈ rs, x.a + x.k + 10 ≤ e := by
+  intro rs
+  induction rs with
+  | nil => intro p e _ x hx; cases hx
+  | cons y r ih =>
+    intro p e h x hx
+    obtain ⟨_, _, _, h4⟩ := h
+    rcases List.mem_cons.mp hx with rfl | hx
+    · have := rchain_le h4; omega
+    · exact ih h4 x hx
+
 /-- one record appended by `finish` (no hint) -/
 theorem chains_addRr_none {s s' : State} (hw : WInv s) (hl : PtrLogOK s) (owner : WName) (ty cls ttl : Nat)
     (rd : List UInt8) (hwf : owner.WF) (hty : ty < 65536)
@@ -137,5 +148,206 @@ theorem chains_addRr_none {s s' : State} (hw : WInv s) (hl : PtrLogOK s) (owner 
   · exact qchain_move (fun a k _ it => item_ext it e) hq
   · exact rchain_append (rchain_ext e hr) (rchain_one hit hlen hb hle)
   · exact be16_of_bytesAt htb hty
+
+
+theorem unwrap_ok_inv' {α} {f : M α} {s s' : State} {a : α} (h : unwrap f s = (.ok a, s')) :
+    f s = (.ok a, s') := by
+  unfold unwrap at h
+  cases hf : f s with
+  | mk r s1 =>
+    rw [hf] at h
+    cases r with
+    | ok b => exact h
+    | err e => cases h
+    | panic => exact h
+
+/-- the type field of an item -/
+def itTy (s : State) (it : RIt) : Nat := be16 s.octets (it.a + it.k)
+
+/-- the final chains: what `finish_with_mac` leaves in the buffer -/
+structure FinLay (s sF : State) (len : Nat) : Prop where
+  winv : WInv sF
+  len : len = sF.cursor
+  counts : BytesAt sF.octets 4 (u16be s.qdcount ++ u16be s.ancount ++ u16be s.nscount ++ u16be s.arcount)
+  chains : ∃ qs rs o t, QChain sF qs 12 s.rrStart ∧ RChain sF (rs ++ o ++ t) s.rrStart sF.cursor ∧
+    qs.length = s.qdcount ∧ rs.length + pend s = s.ancount + s.nscount + s.arcount ∧
+    o.map (itTy sF) = (if s.edns.isSome then [41] else []) ∧
+    t.map (itTy sF) = (if s.tsig.isSome then [250] else [])
+
+theorem finishOpt_inv {edns : Option Edns} {s s1 : State} (h : finishOpt edns s = (.ok (), s1)) :
+    (edns = none ∧ s1 = s) ∨ (∃ e, edns = some e ∧
+      addRr .none WName.root T_OPT e.payload ((e.upper * 16777216) % 4294967296) []
+        { s with available := s.available + Gen.OPT_RECORD_SIZE } = (.ok (), s1)) := by
+  unfold finishOpt at h
+  cases edns with
+  | none => simp only [M.pure_apply] at h; cases h; exact Or.inl ⟨rfl, rfl⟩
+  | some e =>
+    simp only [M.bind_apply, M.modify_apply] at h
+    exact Or.inr ⟨e, rfl, unwrap_ok_inv' h⟩
+
+theorem finishTsig_inv {macFn : Tsig → List UInt8 → List UInt8} {tsig : Option Tsig} {s s' : State}
+    {len : Nat} {mac : Option (List UInt8)} (h : finishTsig macFn tsig s = (.ok (len, mac), s')) :
+    (tsig = none ∧ s' = s ∧ len = s.cursor) ∨ (∃ ts rdata, tsig = some ts ∧ len = s'.cursor ∧
+      addRr .none ts.rr.keyName T_TSIG QC_ANY (ttlFrom 0) rdata
+        { s with tsig := none, available := s.available + ts.reservedLen } = (.ok (), s')) := by
+  unfold finishTsig at h
+  cases tsig with
+  | none =>
+    simp only [M.bind_apply, M.gets_apply, M.pure_apply] at h
+    cases h; exact Or.inl ⟨rfl, rfl, rfl⟩
+  | some ts =>
+    simp only [M.bind_apply, M.gets_apply] at h
+    by_cases hc : s.cursor > s.octets.size
+    · rw [if_pos hc] at h; cases h
+    rw [if_neg hc] at h
+    simp only [M.bind_apply, M.modify_apply] at h
+    generalize tsigRdata ts.rr (tsigAlgName ts.mode) _ = rdata at h
+    cases hu : unwrap (addRr .none ts.rr.keyName T_TSIG QC_ANY (ttlFrom 0) rdata)
+        { s with tsig := none, available := s.available + ts.reservedLen } with
+    | mk r3 s3 =>
+      rw [hu] at h
+      cases r3 with
+      | err e => cases h
+      | panic => cases h
+      | ok u3 =>
+        simp only [M.gets_apply, M.pure_apply] at h
+        cases h
+        exact Or.inr ⟨ts, rdata, rfl, rfl, unwrap_ok_inv' hu⟩
+
+theorem finishWithMac_finLay (macFn : Tsig → List UInt8 → List UInt8) (s : State) (hI : I s) (hL : SLay s)
+    (len : Nat) (mac : Option (List UInt8)) (sF : State)
+    (hw : finishWithMac macFn s = (.ok (len, mac), sF)) (hle : sF.cursor ≤ 65535) : FinLay s sF len := by
+  unfold finishWithMac at hw
+  simp only [M.bind_apply, M.gets_apply] at hw
+  obtain ⟨o, hceq, hIA, hosz⟩ := finishCounts_spec s.qdcount s.ancount s.nscount s.arcount s hI
+  obtain ⟨kpre, kcnt, _, _, _, _, _⟩ := finishCounts_bytes _ _ _ _ s _ hceq
+  rw [hceq] at hw
+  simp only [] at hw
+  generalize hsA : ({ s with octets := o } : State) = sA at hw hIA kpre kcnt
+  have cA : sA.cursor = s.cursor := by rw [← hsA]
+  have gA : sA.gLabels = s.gLabels := by rw [← hsA]
+  have rA : sA.rrStart = s.rrStart := by rw [← hsA]
+  have eA : sA.edns = s.edns := by rw [← hsA]
+  have tA : sA.tsig = s.tsig := by rw [← hsA]
+  have avA : sA.available = s.available := by rw [← hsA]
+  have szA : sA.octets.size = s.octets.size := by rw [← hsA]; exact hosz
+  have h12 : 12 ≤ s.cursor := hI.inv.hdr
+  have hrr := hI.inv.rr_hi
+  have hres := inv_reserved' hI.inv
+  have hav := hI.inv.av_lim; have hls := hI.inv.lim_size
+  have h11 : Gen.OPT_RECORD_SIZE = 11 := rfl
+  -- the chains of `s`, in `sA`
+  have hitA : ∀ a k, a + k ≤ s.cursor → Item s a k → Item sA a k := fun a k hk it =>
+    item_move (lo := 12) it hI.winv.g12 (fun i h1 h2 => kpre i (Or.inr h1)) (by rw [cA]; exact hk)
+      (fun g hg _ => by rw [gA]; exact hg)
+  obtain ⟨qs, hq, hql⟩ := hL.q
+  have hq12 : 12 ≤ s.rrStart := qchain_le hq
+  -- the OPT record
+  cases ho : finishOpt s.edns sA with
+  | mk r2 s1 =>
+    rw [ho] at hw
+    cases r2 with
+    | err e => cases hw
+    | panic => cases hw
+    | ok u2 =>
+      simp only [] at hw
+      have hT := finishTsig_inv hw
+      have hO := finishOpt_inv ho
+      have h41 : T_OPT = 41 := by decide
+      have h250 : T_TSIG = 250 := by decide
+      -- the cursor only grows
+      have hmono : s1.cursor ≤ sF.cursor := by
+        rcases hT with ⟨_, e, _⟩ | ⟨ts, rdata, _, _, hadd⟩
+        · rw [e]; exact Nat.le_refl _
+        · have := frame_addRr .none ts.rr.keyName T_TSIG QC_ANY (ttlFrom 0) rdata
+            { s1 with tsig := none, available := s1.available + ts.reservedLen }
+          rw [hadd] at this; exact this.cur
+      have hmonoA : sA.cursor ≤ s1.cursor := by
+        rcases hO with ⟨_, e⟩ | ⟨e, _, hadd⟩
+        · rw [e]; exact Nat.le_refl _
+        · have := frame_addRr .none WName.root T_OPT e.payload ((e.upper * 16777216) % 4294967296) []
+            { sA with available := sA.available + Gen.OPT_RECORD_SIZE }
+          rw [hadd] at this; exact this.cur
+      have hle1 : s1.cursor ≤ 65535 := by omega
+      have hle0 : s.cursor ≤ 65535 := by omega
+      obtain ⟨rs, hr, hrl⟩ := hL.r hle0
+      have hqA : QChain sA qs 12 s.rrStart := qchain_move (fun a k hk it => hitA a k (by omega) it) hq
+      have hrA : RChain sA rs s.rrStart sA.cursor := by
+        rw [cA]
+        exact rchain_move (lo := 12) (fun a k _ hk it => hitA a k (by omega) it)
+          (fun i hi h2 => be16_congr (kpre i (Or.inr hi)) (kpre (i + 1) (Or.inr (by omega)))) hq12 hr
+      -- stage 1: the OPT record
+      have stage1 : ∃ o, WInv s1 ∧ PtrLogOK s1 ∧ QChain s1 qs 12 s.rrStart ∧
+          RChain s1 (rs ++ o) s.rrStart s1.cursor ∧
+          o.map (itTy s1) = (if s.edns.isSome then [41] else []) ∧
+          (∀ i, i < 12 → s1.octets[i]? = sA.octets[i]?) ∧ s1.tsig = s.tsig ∧ s1.gLabels.length ≥ 0 ∧
+          s1.available + tsigReserved s.tsig ≤ s1.octets.size := by
+        rcases hO with ⟨he, e⟩ | ⟨e, he, hadd⟩
+        · subst e
+          refine ⟨[], hIA.winv, hIA.log, hqA, by simpa using hrA, by rw [he]; rfl, fun _ _ => rfl, tA,
+            Nat.zero_le _, ?_⟩
+          rw [avA, szA]; rw [he] at hres; simp at hres; omega
+        · rw [he] at hres
+          simp only [Option.isSome_some, if_true, h11] at hres
+          have wA' : WInv { sA with available := sA.available + Gen.OPT_RECORD_SIZE } := by
+            have := winv_raise hIA.winv Gen.OPT_RECORD_SIZE (by rw [avA, szA, h11]; omega) sA.tsig
+            exact this
+          have hqA' : QChain { sA with available := sA.available + Gen.OPT_RECORD_SIZE } qs 12 s.rrStart :=
+            qchain_fields (s := sA) (s' := { sA with available := sA.available + Gen.OPT_RECORD_SIZE }) rfl rfl rfl hqA
+          have hrA' : RChain { sA with available := sA.available + Gen.OPT_RECORD_SIZE } rs s.rrStart sA.cursor :=
+            rchain_fields (s := sA) (s' := { sA with available := sA.available + Gen.OPT_RECORD_SIZE }) rfl rfl rfl hrA
+          obtain ⟨w1, l1, e1, hq1, it, hr1, hty1⟩ := chains_addRr_none
+            (s := { sA with available := sA.available + Gen.OPT_RECORD_SIZE }) wA' hIA.log WName.root T_OPT
+            e.payload ((e.upper * 16777216) % 4294967296) [] (by decide) (by decide) hadd hle1
+            (r := s.rrStart) (by show s.rrStart ≤ sA.cursor; rw [cA]; exact hrr)
+            hqA' hrA'
+          refine ⟨[it], w1, l1, hq1, hr1, ?_, fun i hi => e1.pre i (by show i < sA.cursor; rw [cA]; omega),
+            by rw [e1.tsig]; exact tA, Nat.zero_le _, ?_⟩
+          · rw [he]; simp only [Option.isSome_some, if_true, List.map_cons, List.map_nil, itTy, hty1, h41]
+          · rw [e1.available, e1.size]
+            show sA.available + Gen.OPT_RECORD_SIZE + _ ≤ sA.octets.size
+            rw [avA, szA, h11]; omega
+      obtain ⟨o1, w1, l1, hq1, hr1, hty1, hpre1, ht1, _, hroom1⟩ := stage1
+      -- stage 2: the TSIG record
+      have c12 : 12 ≤ s1.cursor := by rw [cA] at hmonoA; omega
+      rcases hT with ⟨hts, e, hlen⟩ | ⟨ts, rdata, hts, hlen, hadd⟩
+      · subst e
+        refine ⟨w1, hlen, ?_, qs, rs, o1, [], hq1, by simpa using hr1, hql, hrl, hty1, by rw [hts]; rfl⟩
+        intro i hi
+        have hl8 : (u16be s.qdcount ++ u16be s.ancount ++ u16be s.nscount ++ u16be s.arcount).length = 8 := rfl
+        rw [hl8] at hi
+        rw [hpre1 _ (by omega)]
+        exact kcnt i (by rw [hl8]; exact hi)
+      · have hts1 : s1.tsig = some ts := by rw [ht1, hts]
+        obtain ⟨_, hkey, _, _, _⟩ := hI.tsig ts hts
+        rw [hts] at hroom1
+        simp only [tsigReserved] at hroom1
+        have w1' : WInv { s1 with tsig := none, available := s1.available + ts.reservedLen } := by
+          have := winv_raise w1 ts.reservedLen hroom1 none
+          exact this
+        have hq1' : QChain { s1 with tsig := none, available := s1.available + ts.reservedLen } qs 12 s.rrStart :=
+          qchain_fields (s := s1) (s' := { s1 with tsig := none, available := s1.available + ts.reservedLen }) rfl rfl rfl hq1
+        have hr1' : RChain { s1 with tsig := none, available := s1.available + ts.reservedLen } (rs ++ o1)
+            s.rrStart s1.cursor := rchain_fields (s := s1) (s' := { s1 with tsig := none, available := s1.available + ts.reservedLen }) rfl rfl rfl hr1
+        obtain ⟨w2, l2, e2, hq2, it, hr2, hty2⟩ := chains_addRr_none
+          (s := { s1 with tsig := none, available := s1.available + ts.reservedLen }) w1' l1 ts.rr.keyName T_TSIG
+          QC_ANY (ttlFrom 0) rdata hkey (by decide) hadd hle
+          (r := s.rrStart) (by show s.rrStart ≤ s1.cursor; rw [cA] at hmonoA; omega)
+          hq1' hr1'
+        refine ⟨w2, hlen, ?_, qs, rs, o1, [it], hq2, by simpa [List.append_assoc] using hr2, hql, hrl, ?_, ?_⟩
+        · intro i hi
+          have hl8 : (u16be s.qdcount ++ u16be s.ancount ++ u16be s.nscount ++ u16be s.arcount).length = 8 := rfl
+          rw [hl8] at hi
+          rw [e2.pre _ (by show 4 + i < s1.cursor; omega), hpre1 _ (by omega)]
+          exact kcnt i (by rw [hl8]; exact hi)
+        · rw [← hty1]
+          apply List.map_congr_left
+          intro x hx
+          -- the type field of the OPT item lies below the old cursor
+          have hpos : x.a + x.k + 10 ≤ s1.cursor :=
+            rchain_mem hr1 x (List.mem_append_right _ hx)
+          exact be16_congr (e2.pre _ (by show x.a + x.k < s1.cursor; omega))
+            (e2.pre _ (by show x.a + x.k + 1 < s1.cursor; omega))
+        · rw [hts]; simp only [Option.isSome_some, if_true, List.map_cons, List.map_nil, itTy, hty2, h250]
 
 end QV.Writer
